@@ -135,7 +135,8 @@ Definition scok (start : Z) (vr sv : nat) (T : tst) : Prop :=
 
 Definition lok (start : Z) (hd : Z) (nx dt : nat -> nat) (vr sv t : nat) (T : tst) : Prop :=
   match pc T with
-  | W0 | W1 | RCtr | Fin | RData | RSpin => True
+  | W0 | W1 | RCtr | Fin | RSpin => True
+  | RData => (0 < shd T)%Z
   | WCtr | WReady | WSleep | WClear => dt (S t) = S t
   | WHead => dt (S t) = S t /\ scok start vr sv T
   | WCasC => dt (S t) = S t /\ scok start vr sv T /\ shd T = (-1)%Z /\ (sv = vr -> hd = shd T)
@@ -490,7 +491,6 @@ Proof.
         match goal with |- holds ?S0 _ _ => apply (holds_upd (base x) S0 t (with_pc T WSleep) eq_refl) end.
         destruct (Nat.eq_dec r t) as [->|]; auto.
         exfalso. unfold holds in C. rewrite <- HT, Hpc in C. destruct C as [[? _]|[? _]]; discriminate.
-      * destruct Ft0; discriminate.
     + unfold scr_ok; cbn. rewrite !upd_same. reflexivity.
     + rewrite upd_same. unfold lok; cbn. exact LT.
   - (* WSleep *)
@@ -607,7 +607,7 @@ Proof.
       assert (Hu : h = S (pred h)) by lia.
       assert (Fq : fs x (pred h) = FQueued). { apply Iwq. rewrite <- Hu, Er. left; auto. }
       assert (Hnt : pred h <> t). { intros E. rewrite E in Fq. congruence. }
-      rewrite Er in Ind. inversion Ind as [|? ? Hnr Hdr]; subst.
+      rewrite Er in Ind. apply NoDup_cons_iff in Ind. destruct Ind as [Hnr Hdr].
       set (s' := cell_upd (base x) (Z.of_nat (sn T)) t (with_pc T RData)).
       assert (Et : thr s' = upd (thr (base x)) t (with_pc T RData)) by reflexivity.
       constructor; cbn [base W hist ver sver fs]; fold s'; rewrite ?Er; cbn [tl].
@@ -625,7 +625,7 @@ Proof.
            ++ specialize (If (pred h)). unfold fs_ok in *. rewrite upd_same. rewrite Fq in If.
               cbn. rewrite upd_other by auto. destruct If as [A B]. split; auto. split; auto.
               apply (holds_upd (base x) _ t _ Et). destruct (Nat.eq_dec t t); [|congruence].
-              left. cbn. split; auto. rewrite <- Hu. unfold h. lia.
+              left. split; [reflexivity|]. change (shd (with_pc T RData)) with (shd T). rewrite <- Hu. unfold h. lia.
            ++ apply (fs_ok_other (base x) _ (fs x)); cbn; auto; try (rewrite upd_other by auto; reflexivity).
               intros r0 Er0 Hr. apply (holds_upd (base x) _ t _ Et). destruct (Nat.eq_dec r0 t) as [->|]; auto.
               exfalso. unfold holds in Hr. rewrite <- HT, Hpc in Hr. destruct Hr as [[? _]|[? _]]; discriminate.
@@ -637,7 +637,7 @@ Proof.
       * intros u. unfold scr_ok. cbn. thr_cases u t.
         -- cbn. pose proof (Is t) as Q. unfold scr_ok in Q. rewrite <- HT, Hpc in Q. exact Q.
         -- apply Is.
-      * intros u. cbn [s' cell_upd head next data thr]. thr_cases u t; [unfold lok; cbn; exact Logic.I|].
+      * intros u. cbn [s' cell_upd head next data thr]. thr_cases u t; [unfold lok; cbn; exact P|].
         eapply lok_bump. apply Il.
       * rewrite replay_app, Ihi, Er. cbn [s' cell_upd head]. cbn.
         assert (E1 : (shd T =? -1)%Z = false) by (apply Z.eqb_neq; congruence).
@@ -655,12 +655,161 @@ Proof.
       * rewrite upd_same. unfold lok; cbn. auto.
   - (* RData *)
     destruct NS as [Ft Wt]; [intros [?|?]; discriminate|].
-    assert (Hd : holds (base x) t (Z.to_nat (shd T))).
-    { left. rewrite <- HT. split; auto.
-      destruct (g_hold _ _ I t (Z.to_nat (shd T))) as [A _]; [|].
-      - admit.
-      - admit. }
-    admit.
-  - admit.
+    set (n := Z.to_nat (shd T)).
+    assert (Hd : holds (base x) t n).
+    { left. rewrite <- HT. split; auto. unfold n. lia. }
+    destruct (g_hold _ _ I t n Hd) as [Hnz Fr].
+    assert (Hn : n = S (pred n)) by lia.
+    assert (Dn : data (base x) n = n).
+    { pose proof (g_fs _ _ I (pred n)) as Fu. unfold fs_ok in Fu. rewrite Fr in Fu. destruct Fu as (A & _).
+      pose proof (g_loc _ _ I (pred n)) as Lu. unfold lok in Lu. rewrite <- Hn in Lu.
+      destruct A as [A|A]; rewrite A in Lu; exact Lu. }
+    frame I t.
+    + others.
+    + auto.
+    + auto.
+    + auto.
+    + intros m. unfold holds; cbn. rewrite upd_same, <- HT, Hpc. cbn. fold n. rewrite Dn.
+      split.
+      * intros [[? _]|[_ E]]; [discriminate|]. left. split; auto. subst m. unfold n. lia.
+      * intros [[_ E]|[? _]]; [|discriminate]. right. split; auto. unfold n. lia.
+    + fs_run Ft Wt.
+    + scr_zero Is HT Hpc t.
+    + rewrite upd_same. unfold lok; cbn. auto.
+  - (* RSpin *)
+    set (u := pred (tw T)).
+    destruct (Z.eqb_spec (scr (base x) u) (-1)) as [Es|Es]; cbn [fst].
+    + destruct NS as [Ft Wt]; [intros [?|?]; discriminate|].
+      assert (Hd : holds (base x) t (tw T)) by (right; rewrite <- HT; auto).
+      destruct (g_hold _ _ I t (tw T) Hd) as [Hnz Fr]. fold u in Fr.
+      assert (Hn : tw T = S u) by (unfold u; lia).
+      pose proof (g_fs _ _ I u) as Fu. unfold fs_ok in Fu. rewrite Fr in Fu. destruct Fu as (A & Wu & _).
+      assert (Pu : pc (thr (base x) u) = WSleep).
+      { pose proof (Is u) as Q. unfold scr_ok in Q. rewrite Es in Q.
+        destruct A as [A|A]; rewrite A in Q; [discriminate|auto]. }
+      assert (Hut : u <> t). { intros E. rewrite E, <- HT, Hpc in Pu. discriminate. }
+      destruct I as [Ic Ind Iv Iwq Iwz If Ih Is' Il Ihi].
+      set (s' := {| ctr := ctr (base x) |}).
+      assert (Et : thr s' = upd (thr (base x)) t (next_op T)) by reflexivity.
+      constructor; cbn [base W hist ver sver fs]; fold s'; auto.
+      * intros v. destruct (Nat.eq_dec v u) as [->|Hv]; [|rewrite upd_other by auto; apply Iwq].
+        rewrite upd_same. split; [discriminate|]. intros Hi. apply Iwq in Hi. congruence.
+      * intros v. destruct (Nat.eq_dec v t) as [->|Hvt].
+        -- unfold fs_ok. rewrite upd_other by auto. rewrite Ft. cbn. rewrite upd_same, upd_other by auto.
+           split; [apply next_op_not_sleepy|exact Wt].
+        -- destruct (Nat.eq_dec v u) as [->|Hvu].
+           ++ unfold fs_ok. rewrite upd_same. cbn. rewrite upd_other by auto. rewrite upd_same. split; auto.
+           ++ apply (fs_ok_other (base x) _ (fs x)); cbn; auto; try (rewrite upd_other by auto; reflexivity).
+              intros r0 Er0 Hr. apply (holds_upd (base x) _ t _ Et). destruct (Nat.eq_dec r0 t) as [->|]; auto.
+              exfalso. unfold holds in Hr. rewrite <- HT, Hpc in Hr. destruct Hr as [[? _]|[_ E]]; [discriminate|].
+              apply Hvu. unfold u. rewrite E. reflexivity.
+      * intros r0 m Hm. apply (holds_upd (base x) _ t _ Et) in Hm. destruct (Nat.eq_dec r0 t) as [->|Hr].
+        -- exfalso. eapply next_op_no_hold; eauto.
+        -- destruct (Ih r0 m Hm) as [B C]. split; auto. rewrite upd_other; auto.
+           intros E. rewrite E in C. congruence.
+      * intros v. unfold scr_ok. cbn. thr_cases v t.
+        -- rewrite next_op_scr. pose proof (Is t) as Q. unfold scr_ok in Q. rewrite <- HT, Hpc in Q. exact Q.
+        -- apply Is.
+      * intros v. cbn [s' head next data thr]. thr_cases v t; [apply next_op_lok|apply Il].
+    + destruct x; cbn in *; exact I.
   - destruct x; cbn in *; exact I.
-Admitted.
+Qed.
+
+
+(* ---------- initial state ---------- *)
+Lemma begin_pc p i : pc (begin p i) = W0 \/ pc (begin p i) = RCtr \/ pc (begin p i) = Fin.
+Proof. unfold begin. destruct p as [|[| |] r]; cbn; auto. Qed.
+
+Lemma init_linv start progs : LInv start (iinit start progs).
+Proof.
+  constructor; cbn [base W hist ver sver fs iinit]; cbn [init ctr head next data scr wk thr].
+  - right. split; [lia|reflexivity].
+  - constructor.
+  - lia.
+  - intros t. split; [discriminate|intros []].
+  - intros n [].
+  - intros t. unfold fs_ok. cbn. split; auto. unfold sleepy.
+    destruct (begin_pc (nth t progs []) 0) as [E|[E|E]]; rewrite E; intros [?|?]; discriminate.
+  - intros r n [[E _]|[E _]]; cbn in E; exfalso;
+      destruct (begin_pc (nth r progs []) 0) as [F|[F|F]]; rewrite F in E; discriminate.
+  - intros t. unfold scr_ok. cbn.
+    destruct (begin_pc (nth t progs []) 0) as [E|[E|E]]; rewrite E; reflexivity.
+  - intros t. unfold lok. destruct (begin_pc (nth t progs []) 0) as [E|[E|E]]; rewrite E; auto.
+  - reflexivity.
+Qed.
+
+Theorem ireach_linv start progs x : ireach start progs x -> LInv start x.
+Proof. induction 1; [apply init_linv|apply linv_step; auto]. Qed.
+
+(* ---------- the statements used by Properties_C20.v ---------- *)
+Lemma snapshot_of_linv start x t :
+  LInv start x -> ctr (base x) = sc (thr (base x) t) ->
+  match pc (thr (base x) t) with
+  | WCasC => sver x t = ver x /\ head (base x) = shd (thr (base x) t) /\ W x = []
+  | WCasQ => sver x t = ver x /\ head (base x) = shd (thr (base x) t) /\
+             next (base x) (S t) = Z.to_nat (shd (thr (base x) t)) /\ ~ In (S t) (W x) /\
+             chain (next (base x)) (Z.to_nat (shd (thr (base x) t))) (W x)
+  | RCasR => sver x t = ver x /\ head (base x) = shd (thr (base x) t) /\ W x = []
+  | RCasP => sver x t = ver x /\ head (base x) = shd (thr (base x) t) /\
+             next (base x) (Z.to_nat (shd (thr (base x) t))) = sn (thr (base x) t) /\
+             exists r, W x = Z.to_nat (shd (thr (base x) t)) :: r /\
+                       chain (next (base x)) (sn (thr (base x) t)) r
+  | _ => True
+  end.
+Proof.
+  intros I Hc. assert (LT := g_loc _ _ I t). unfold lok, scok in LT.
+  pose proof (g_ver _ _ I) as Iv. pose proof (g_cell _ _ I) as Ic.
+  destruct (pc (thr (base x) t)) eqn:Hpc; auto.
+  - destruct LT as (_ & [A B] & C & D). assert (Es : sver x t = ver x) by lia. specialize (D Es).
+    repeat split; auto. rewrite D, C in Ic. destruct Ic as [[_ E]|[P _]]; [auto|lia].
+  - destruct LT as (_ & [A B] & C & N & D). assert (Es : sver x t = ver x) by lia. specialize (D Es).
+    repeat split; auto.
+    + intros Hi. apply (g_wq _ _ I) in Hi. pose proof (g_fs _ _ I t) as F. unfold fs_ok in F.
+      rewrite Hi, Hpc in F. destruct F as [[F|F] _]; discriminate.
+    + rewrite D in Ic. destruct Ic as [[E _]|[_ Ch]]; [congruence|auto].
+  - destruct LT as ([A B] & C & D). assert (Es : sver x t = ver x) by lia. specialize (D Es).
+    repeat split; auto. rewrite D in Ic. destruct Ic as [[_ E]|[P Ch]]; [auto|].
+    destruct C as [C|C]; [|lia]. rewrite C in Ch. cbn in Ch. eapply chain_zero; eauto.
+  - destruct LT as ([A B] & C & C' & D). assert (Es : sver x t = ver x) by lia. destruct (D Es) as [D1 D2].
+    repeat split; auto. rewrite D1 in Ic.
+    destruct (cell_head_in _ _ _ Ic C C') as (P & r & Er & Cr). exists r. split; auto. rewrite <- D2. exact Cr.
+Qed.
+
+Lemma spec_of_linv start x :
+  LInv start x ->
+  replay (hist x) ([], false) = Some (W x, (head (base x) =? -1)%Z) /\
+  cell_ok (head (base x)) (next (base x)) (W x) /\ NoDup (W x).
+Proof. intros I. split; [apply (g_hist _ _ I)|]. split; [apply (g_cell _ _ I)|apply (g_nodup _ _ I)]. Qed.
+
+(* where every fiber is *)
+Lemma accounting_of_linv start x t :
+  LInv start x ->
+  fs_ok (base x) (fs x) t /\ (fs x t = FQueued <-> In (S t) (W x)) /\
+  (forall r, fs x t = FReleased r -> holds (base x) r (S t)) /\
+  (forall r n, holds (base x) r n -> n <> 0 /\ fs x (pred n) = FReleased r).
+Proof.
+  intros I. split; [apply (g_fs _ _ I)|]. split; [apply (g_wq _ _ I)|]. split; [|apply (g_hold _ _ I)].
+  intros r E. pose proof (g_fs _ _ I t) as F. unfold fs_ok in F. rewrite E in F. tauto.
+Qed.
+
+(* the consequences one wants to read *)
+Lemma sleeping_of_linv start x t :
+  LInv start x ->
+  wk (base x) t <= 1 /\
+  (In (S t) (W x) -> sleepy (pc (thr (base x) t)) /\ wk (base x) t = 0) /\
+  (wk (base x) t = 1 -> pc (thr (base x) t) = WSleep /\ ~ In (S t) (W x)) /\
+  (sleepy (pc (thr (base x) t)) ->
+     In (S t) (W x) \/ (exists r, holds (base x) r (S t)) \/ wk (base x) t = 1).
+Proof.
+  intros I. pose proof (g_fs _ _ I t) as F. pose proof (g_wq _ _ I t) as Q. unfold fs_ok in F.
+  assert (NQ : fs x t <> FQueued -> ~ In (S t) (W x)) by (intros N Hi; apply N; apply Q; exact Hi).
+  destruct (fs x t) eqn:E.
+  - destruct F as [A B]. split; [lia|]. split; [intros Hi; exfalso; apply NQ; [discriminate|exact Hi]|].
+    split; [intros Hw; lia|]. intros Hs. tauto.
+  - destruct F as [A B]. split; [lia|]. split; [auto|]. split; [intros Hw; lia|].
+    intros _. left. apply Q. reflexivity.
+  - destruct F as (A & B & C). split; [lia|]. split; [intros Hi; exfalso; apply NQ; [discriminate|exact Hi]|].
+    split; [intros Hw; lia|]. intros _. right. left. eauto.
+  - destruct F as [A B]. split; [lia|]. split; [intros Hi; exfalso; apply NQ; [discriminate|exact Hi]|].
+    split; [intros _; split; [exact A|apply NQ; discriminate]|]. intros _. right. right. exact B.
+Qed.
